@@ -67,6 +67,14 @@ class Sim:
         return None
 
 
+def zip_same_list_excluded(o, o2):
+    """A zip iterator over the SAME list (`zit_new o=k o2=k`) is kept out of every generator stream: the library
+    misbehaves there (known finding KF-list-zip-same-list: zip remove unlinks and frees the one node twice; the slist
+    zip add loses one of the two new nodes and over-counts `size`).  Witnesses: corpus/{list,slist}/defect_zip_same_list_*.ops.
+    add_all(l, l) / add_all_at(l, l, i) aliasing is legal and IS generated."""
+    return o == o2
+
+
 class LinkedGen:
     def __init__(self, name, dbl):
         self.name = name
@@ -175,9 +183,13 @@ class LinkedGen:
                 out.append(f"add {v}" + (f" o={k}" if k else ""))
             live = sim.live()
         a, b = rng.sample(live, 2)
+        # aliasing: add_all(l, l) / add_all_at(l, l, i) are legal calls (the list is doubled); splice(l, l) is not
+        alias = rng.random() < 0.12
+        if alias:
+            b = a
         la, lb = sim.s[a], sim.s[b]
         # splice moves the nodes themselves, so it is only meaningful between lists on the same allocator
-        c = rng.choice(["add_all", "add_all_at"] if sim.mix else ["add_all", "add_all_at", "splice", "splice_at"])
+        c = rng.choice(["add_all", "add_all_at"] if (sim.mix or alias) else ["add_all", "add_all_at", "splice", "splice_at"])
         o = f" o={a}" if a else ""
         if c.startswith("add_all") and len(la) + len(lb) > 64:
             # repeated copies double the sizes; keep the lists far below the shims' log capacity
@@ -194,7 +206,7 @@ class LinkedGen:
                     del lb[:]
             out.append(f"{c} from={b} idx={i}{o}")
         else:
-            la.extend(lb)
+            la.extend(list(lb))
             if c == "splice":
                 del lb[:]
             out.append(f"{c} from={b}{o}")
@@ -558,6 +570,7 @@ class LinkedGen:
         if len(live) < 2:
             return []
         a, b = rng.sample(live, 2)
+        assert not zip_same_list_excluded(a, b)
         la, lb = sim.s[a], sim.s[b]
         out = [f"zit_new o={a} o2={b}"]
         pos = 0
@@ -1095,6 +1108,19 @@ class LinkedGen:
                         for c in ("add_all_at", "splice_at"):
                             out.append(build(A) + build(B, 1) + [f"{c} from=1 idx={i}", "add_first 9", "add 8", "add 7 o=1", "remove_last",
                                                                  "remove_first o=1", "drop o=1", "reverse", "destroy"])
+            # (b1) aliasing: the same list on both sides of add_all / add_all_at (legal: the list is doubled), every position,
+            # with and without a refusal in the middle, then end operations
+            for n in range(0, 5):
+                A = [11, 12, 13, 14][:n]
+                for k in (0, 1):
+                    o = f" o={k}" if k else ""
+                    pre = build([5], 0) if k else []
+                    out.append(pre + build(A, k) + [f"add_all from={k}{o}", f"add 9{o}", f"remove_first{o}", f"remove_last{o}", f"get_last{o}", "destroy"])
+                    for i in sorted(set([0, 1, n // 2, max(n - 1, 0), n, n + 1])):
+                        out.append(pre + build(A, k) + [f"add_all_at from={k} idx={i}{o}", f"add_first 9{o}", f"add 8{o}", f"remove_last{o}", f"reverse{o}", "destroy"])
+                    if focus in ("fault",) or allf:
+                        for f in range(1, n + 2):
+                            out.append(pre + build(A, k) + [f"add_all from={k} fail={f}{o}", f"add_all_at from={k} idx=0 fail={f}{o}", f"size{o}", "destroy"])
             # (b4) boundary operation -> end operation, immediately: every bulk operation (the `_at` ones at the positions
             # 0, 1, size-2, size-1, size) and every indexed insertion/removal at these positions, followed at once by each
             # of the end operations and by a second bulk operation; source sizes 1, 2, 3
